@@ -11,13 +11,14 @@ XORDH = "XorDh: 16-bit toy Diffie-Hellman group (pk(a)=a^G, dh(a,P)=a^P^G, rejec
 SPY = "SpyAead: records exactly what hpke hands to the AEAD and returns a harness-chosen (symbolic) verdict/tag; stands for 'any AEAD whatsoever'"
 IDEAL = "IdealAead: invertible keystream + decrypt accepts iff (key,nonce,aad,ct,tag) was produced by encrypt (INT-CTXT by construction); the real AES-GCM/ChaCha20Poly1305 crates are assumed to be correct AEADs"
 RNG = "ScriptRng: the caller's RNG hands out symbolic bytes and records every call"
+HKDFSTUB = "in the composed (setup-level) harnesses the hkdf crate's five entry points hpke calls (HkdfExtract::new/input_ikm/finalize, Hkdf::from_prk/expand_multi_info) are replaced by a functional model of RFC 5869/2104 over the same model hash (kani/hv/src/fasthkdf.rs; 14x faster); the real hkdf+hmac crates are tied to the same reference by the un-stubbed harnesses c02_l0_labeled_kdf_real and c03_*"
 REF = "oracle: kani/hv/src/rfc9180.rs, an independent transcription of RFC 9180 sections 4-5, 7.1.3 over hand-written HMAC (RFC 2104) and HKDF (RFC 5869)"
 PARAM = "transfer from the model suite to the 48 real suites: hpke's generic code sees its parameters only through the trait items; the non-parametric facts (ids, sizes, suite-id bytes, capacity constants) are decided on the real types by c02_l6_tables"
 REALCRYPTO = "arithmetic of the real primitives (SHA-2, AES-GCM, ChaCha20Poly1305, X25519, P-256/384/521) is NOT executed symbolically (measured out of reach); their correctness is assumed"
 
 ASSUMPTIONS = {
-    "C01": [XORDH, LIN, IDEAL, RNG, PARAM, REALCRYPTO],
-    "C02": [XORDH, LIN, SPY, RNG, REF, PARAM, REALCRYPTO],
+    "C01": [HKDFSTUB, XORDH, LIN, IDEAL, RNG, PARAM, REALCRYPTO],
+    "C02": [HKDFSTUB, XORDH, LIN, SPY, RNG, REF, PARAM, REALCRYPTO],
     "C03": [XORDH, LIN, RNG, REF, PARAM, REALCRYPTO, "pk(sk) and DH results on the real curves for symbolic keys are not decided"],
     "C04": [SPY, "LinKdf/ToyKemLin only fix the type parameters of the context (no hashing happens in seal)"],
     "C05": [SPY, IDEAL],
@@ -26,13 +27,13 @@ ASSUMPTIONS = {
     "C08": [XORDH, INTERN, IDEAL, RNG, PARAM, "on the real curves the corresponding assumption is gap-DH"],
     "C09": ["coordinate range and curve-equation checks of public keys (x,y < p, on-curve) are NOT decided: symbolic field arithmetic is out of reach (measured); only length, tag byte and private-scalar range are claimed"],
     "C10": ["x25519_dalek::StaticSecret::diffie_hellman is stubbed by an oracle returning an arbitrary 32-byte value (the ladder is out of reach); that every small-order encoding yields the zero value for every scalar is Curve25519 mathematics and not decided"],
-    "C11": [LIN, SPY, REF, "ConstKdf (Nh=2, constant hash) for the 255*Nh limit; successful maximum-length export on real SHA-2 is not executed (follows from the generic-code harness)"],
+    "C11": [HKDFSTUB, LIN, SPY, REF, "ConstKdf (Nh=2, constant hash) for the 255*Nh limit; successful maximum-length export on real SHA-2 is not executed (follows from the generic-code harness)"],
     "C12": ["NIST public/encapsulated key round trips (need symbolic field arithmetic) are not decided; X25519, NIST private keys, tags and all length checks are"],
-    "C13": [XORDH, LIN, SPY, RNG, "for NIST public keys of the right length with tag 0x04 the curve crates' own arithmetic is not executed; panics inside the primitive crates are outside the claim"],
-    "C14": [XORDH, LIN, IDEAL, RNG],
-    "C15": [XORDH, LIN, SPY, REF],
-    "C16": ["volatile writes are modelled as plain writes; survival of the wipes under compiler optimisation is zeroize's guarantee and not decided; copies left by moves and key material inside the AEAD state are outside the claim"],
-    "C18": [XORDH, LIN, SPY, RNG, REF, "thread schedules are NOT explored (Kani has no concurrency model); claimed: sequential history independence, commutation of operations on distinct contexts, Send+Sync by the type checker"],
+    "C13": [HKDFSTUB, XORDH, LIN, SPY, RNG, "for NIST public keys of the right length with tag 0x04 the curve crates' own arithmetic is not executed; panics inside the primitive crates are outside the claim"],
+    "C14": [HKDFSTUB, XORDH, LIN, IDEAL, RNG],
+    "C15": [HKDFSTUB, XORDH, LIN, SPY, REF],
+    "C16": [HKDFSTUB, "volatile writes are modelled as plain writes; survival of the wipes under compiler optimisation is zeroize's guarantee and not decided; copies left by moves and key material inside the AEAD state are outside the claim"],
+    "C18": [HKDFSTUB, XORDH, LIN, SPY, RNG, REF, "thread schedules are NOT explored (Kani has no concurrency model); claimed: sequential history independence, commutation of operations on distinct contexts, Send+Sync by the type checker"],
 }
 
 
